@@ -27,6 +27,9 @@ fn main() {
         std::process::exit(2);
     }
     // SIGPIPE: keep Rust's default (ignored) here; C09 resets it in its sacrificial children.
+    if matches!(args[1].as_str(), "run" | "replay") {
+        ipcv::fdsnap::fd0::init();
+    }
     match args[1].as_str() {
         "run" => {
             let mut ctx = Ctx {
